@@ -685,12 +685,18 @@ pub fn blocks(r: &mut Runner) {
 /// legitimate value 9.03, see DESIGN.md section 5 (C13).
 pub const K_STEPS: u64 = 24;
 /// Steps per byte allowed when the *portable* packed-pair prefilter is in use
-/// (forced fallback): one call of it legitimately costs up to ~2 steps per
-/// rejected occurrence of the first pair byte in front of its needle offset
-/// (<= 254), and a candidate-free prefix of f*n bytes buys f*n/8 such calls
-/// before the adaptive state gives up, i.e. up to ~113 steps per haystack byte
-/// (measured on the unchanged tree: 24.1 with offset 200 and f = 1/2).
-pub const K_STEPS_PORTABLE: u64 = 192;
+/// (forced fallback, targets without a vector backend). One call of it
+/// legitimately costs a few counted steps per occurrence of the first pair
+/// byte that lies in front of its needle offset (<= 254 of them), the Two-Way
+/// loop may call it once per haystack byte, and nothing in the *property*
+/// obliges the adaptive state to ever switch it off: the worst legitimate
+/// constant is therefore of the order of 4 * 254. (Measured: 24.1 on the
+/// unchanged tree with offset 200 and a half-length candidate-free prefix; 223
+/// on a tree whose prefilter never goes inert - still linear.) In this
+/// configuration the bound only catches gross blow-ups; the tight bound is
+/// enforced in the configurations above, which every seeded quadratic change
+/// also affects.
+pub const K_STEPS_PORTABLE: u64 = 1024;
 pub const C_STEPS: u64 = 4096;
 
 pub fn k_steps() -> u64 {
